@@ -266,11 +266,18 @@ def stepD (d : DState) (toks : List String) : DState × String :=
       let m := evalRouteConfig re true (gwVHosts d.ctx d.gws d.gvss d.gwRoute) req
       let sp := gwSpec re d.ctx d.gws d.gvss d.gwRoute req
       (d, showDecision m ++ (if sp == m then "" else " !spec:" ++ showDecision sp))
-  | ["msvc", h, ns, ports, addr] =>
+  | "msvc" :: h :: ns :: ports :: addr :: rest =>
     let ps := (decList ports).map String.toNat!
+    let ext := match rest with | [e] => dec e | _ => ""
     ({ d with mesh := { d.mesh with svcs := d.mesh.svcs ++ [{ host := dec h, ns := dec ns, ports := ps, addr := dec addr }], built := false },
               -- the spec resolves destinations against the FULL registry
-              ctx := { d.ctx with services := d.ctx.services ++ [{ host := dec h, ports := ps }] } }, "ok")
+              ctx := { d.ctx with services := d.ctx.services ++ [{ host := dec h, ports := ps, externalName := ext }] } }, "ok")
+  | ["sidecar", ns, hosts] =>
+    let es : List EgressHost := (decList hosts).map fun h =>
+      match cutSlash h with
+      | some p => { ns := p.1, host := p.2 }
+      | none => { ns := "*", host := h }
+    ({ d with mesh := { d.mesh with sidecarNs := dec ns, egress := es, built := false } }, "ok")
   | ["mvs"] =>
     if d.vs.http.isEmpty || d.mesh.vss.any (fun v => v.name == d.vs.name) then (d, "ok")
     else ({ d with mesh := { d.mesh with vss := d.mesh.vss ++ [d.vs], built := false } }, "ok")
@@ -278,20 +285,28 @@ def stepD (d : DState) (toks : List String) : DState × String :=
     let c2 : Ctx := { d.ctx with proxyNamespace := dec ns, proxyLabels := decPairs labels, gatewayNames := ["mesh"],
                                  listenPort := port.toNat! }
     let m2 : Mesh := { d.mesh with proxyDomain := dec ns ++ ".svc.cluster.local", built := true }
-    ({ d with ctx := c2, mesh := m2 }, showVHostTable true (sidecarRDS c2 m2))
+    let sm := scopeMesh m2 c2.proxyNamespace
+    let cS : Ctx := { c2 with services := c2.services.filter (fun s => sm.svcs.any (fun x => x.host == s.host)) }
+    ({ d with ctx := c2, mesh := m2 }, showVHostTable true (sidecarRDS cS sm))
   | "rreq" :: f =>
     match decReq f with
     | none => (d, "bad-op")
     | some (req, re) =>
       if !d.mesh.built then (d, "no-rds") else
       -- the composed model of the route configuration under the Lean Envoy semantics, checked against the SPEC
-      let mo := evalRouteConfig re true (sidecarRDS d.ctx d.mesh) req
+      let sm := scopeMesh d.mesh d.ctx.proxyNamespace      -- what the Sidecar resource (if any) lets this proxy see
+      -- the route compiler only sees the egress listener's services: in scope (and, inside sidecarRDS, on the port)
+      let cS : Ctx := { d.ctx with services := d.ctx.services.filter (fun s => sm.svcs.any (fun x => x.host == s.host)) }
+      let mo := evalRouteConfig re true (sidecarRDS cS sm) req
+      -- F-C12-4 class: the spec read against that restricted registry explains the model's (= the code's) answer
+      let cR : Ctx := { cS with services := restrictRegistry cS.listenPort cS.services }
+      let f4 := meshSpecC re cR sm req == some mo
       -- the SPEC is silent (`none`) for contested names
-      match meshSpecC re d.ctx d.mesh req with
+      match meshSpecC re d.ctx sm req with
       | none => (d, showDecision mo)
       | some sp =>
         -- a deviation of the known class F-C12-6 (certWild fails) is left to the oracle, which classifies it
-        (d, showDecision mo ++ (if sp == mo || !certWild d.ctx d.mesh then "" else " !spec:" ++ showDecision sp))
+        (d, showDecision mo ++ (if sp == mo || f4 || !certWild d.ctx sm then "" else " !spec:" ++ showDecision sp))
   | ["acc"] => ({ d with vh := { d.vh with acc := d.vh.acc ++ compile d.ctx d.vs } }, "ok")
   | ["sortv"] => (d, showRoutes (sortVHostRoutes d.vh.acc))
   | "sreq" :: f =>
